@@ -27,8 +27,12 @@ CFG = PropCfg(
      # exit non-zero, which the runner reports as a broken correspondence with the race report
      SuiteCfg("C17race", kind="monitor", signature=_sig_lin, timeout=3000, tags="race",
               env={"GORACE": "halt_on_error=1"},
-              nontrivial=lambda seg, ver: sum(1 for l in seg if l.startswith("ret ")) >= 3)],
-    rule="C17q (diff): a case is one single-goroutine operation sequence (new cap; send/recv/close/set/cancel/fire "
+              nontrivial=lambda seg, ver: sum(1 for l in seg if l.startswith("ret ")) >= 3),
+     # the gonet wiring: a dialer's Timeout / Deadline bound the handshake with a peer that never answers
+     SuiteCfg("C17dial", stateless=True, parts_thorough=1, nontrivial=lambda ops, outs: True)],
+    rule="C17dial: transport.DialWithDialer with Timeouts of 150 ms .. 2.4 s (sub-second, whole and fractional seconds) "
+         "and Deadlines, towards a loopback UDP socket that never answers: Handshake returns an error within the limit "
+         "(+2.5 s of slack), it never blocks. C17q (diff): a case is one single-goroutine operation sequence (new cap; send/recv/close/set/cancel/fire "
          "...) run on a real common.DeadlineChan[int] and on QSpec; every answer is compared exactly; calls that "
          "block are observed as `block` and released by Cancel. C17lin (monitor): a case is one small concurrent "
          "program (2-7 goroutines, at most 11 queue operations; or Handshake/Read/ReadMsg/Write/WriteMsg/"
